@@ -628,3 +628,10 @@ Definition g_step (cfg : gcfg) (s : gst) (t : nat) : gst :=
 
 Definition g_run (cfg : gcfg) (sched : list nat) (s : gst) : gst := fold_left (g_step cfg) sched s.
 Definition g_exec (cfg : gcfg) (sched : list nat) : gst := g_run cfg sched (g_init cfg).
+
+(* ---------- checkers over the translator-derived tables of T11send/paths (definitions only) ---------- *)
+Definition group_accepts_ok (l : list (string * bool * bool)) : bool :=
+  forallb (fun r => snd (fst r) && snd r) l && Nat.eqb (List.length l) 2.
+
+Definition compress_site_ok (r : string * string * bool * bool * bool) : bool :=
+  let '(_, _, has_results, recycle_ok, joins) := r in negb has_results && recycle_ok && joins.
